@@ -161,12 +161,15 @@ func vpH_C06_blocks() {
 	}
 	seg := vpBuild(docs, 1025)
 	held := docs
-	switch vpChoice("variant", 3) {
+	switch vpChoice("variant", 4) {
 	case 1:
 		seg = vpLoad(vpPersist(seg))
 	case 2:
 		mb, _ := vpMergeBytes([]*Segment{seg}, []*roaring.Bitmap{nil}, 1025)
 		seg = vpLoad(mb)
+	case 3:
+		vpNote("feat:file-backed")
+		seg, _ = vpLoadFile(vpPersist(seg))
 	}
 	exp := vpBuildExpect(held[126:], []string{"s"})
 	order := [][]int{{126, 127, 128, 129}, {129, 128, 127, 126}, {127, 128, 0, 129}}[vpChoice("order", 3)]
@@ -203,9 +206,7 @@ func vpH_C06_lookahead() {
 	}
 	vpNote("feat:two-blocks")
 	seg := vpBuild(docs, 1025)
-	if vpChoice("loaded", 2) == 1 {
-		seg = vpLoad(vpPersist(seg))
-	}
+	seg = vpLoadedVariant(seg)
 	e5 := vpBuildExpect(docs[5:6], []string{"s"}).stored[0]
 	e200 := vpBuildExpect(docs[200:201], []string{"s"}).stored[0]
 	if vpChoice("order", 2) == 0 {
